@@ -1,6 +1,6 @@
 (* Extraction of M-LINT. ExtrOcamlBasic only; nat, positive, N stay inductive. *)
 Require Extraction.
 Require Import ExtrOcamlBasic.
-From Atlas Require Import Base.Bytes Lint.LintModel Lint.LintNolintModel.
+From Atlas Require Import Base.Bytes Lint.LintModel Lint.LintNolintModel Lint.LintGenModel Lint.LintEnvModel.
 Extraction Language OCaml.
-Extraction "model.ml" lint analyze_file lint_nl.
+Extraction "model.ml" lint analyze_file lint_nl destructive_run lint_env.
